@@ -81,10 +81,12 @@ def matrix_scripts(tier, seed, label):
         scripts.append(("app_closes_first",
                         [("app_send", sb("c1", 3000)), ("target_send", sb("c2", 3000)), ("drain",), ("app_close",)],
                         False, True, "after a 3000-byte exchange the app closes; the target must see EOF"))
+        # a half-close is a close of that side (C15: closing one side tears the whole flow down): what the app wrote before its
+        # FIN reaches the target, the target sees EOF, and the app's own connection is ended too
         scripts.append(("app_half_close",
-                        [("app_send", sb("h1", 3000)), ("drain",), ("app_shutdown_wr",), ("pause", 0.3),
-                         ("target_send", sb("h2", 3000)), ("drain",), ("target_close",)],
-                        True, True, "app sends, half-closes (FIN); target must see EOF, answer still reaches app, then EOF"))
+                        [("app_send", sb("h1", 3000)), ("target_send", sb("h2", 3000)), ("drain",), ("app_send", sb("h3", 40000)),
+                         ("app_shutdown_wr",), ("pause", 0.3)],
+                        True, True, "after an exchange the app writes 40000 bytes and half-closes (FIN); the target must receive all of it and see EOF, and the app sees EOF"))
         scripts.append(("target_speaks_first",
                         [("target_send", sb("g1", 40)), ("drain",), ("app_send", sb("g2", 40)), ("drain",), ("target_close",)],
                         True, False, "app stays silent after the handshake; the target's greeting must arrive first"))
@@ -153,7 +155,8 @@ def suite_matrix(tier, seed, only):
         cname = combo_name(p, c, t)
         spec = {"protocol": p, "cipher": c, "transport": t, "client_mode": "tcp", "seed": seed}
         if tier == "quick":
-            names = ["matrix/%s/%s/mixed" % (cname, k) for k in T.HANDSHAKE_KINDS]
+            names = ["matrix/%s/%s/mixed" % (cname, k) for k in T.HANDSHAKE_KINDS] + \
+                    ["matrix/%s/socks5_ipv4/%s" % (cname, sn) for sn in ("target_speaks_first", "zero_len_writes", "app_closes_first", "app_half_close")]
             if not any(wanted(n, only) for n in names):
                 continue
             jobs.append(lambda spec=spec, cname=cname: matrix_job_quick(spec, cname, seed, only))
@@ -198,6 +201,25 @@ def matrix_job_quick(spec, cname, seed, only):
             if restarted:
                 r["observed"]["note"] = "fresh deployment: a process of the shared deployment had died in the previous scenario"
             res.append(r)
+        # two more endings per combination in the same deployment: the target speaks first (a silent application after the
+        # handshake), and one of the other scripts of the thorough tier in rotation
+        extra = {s[0]: s for s in matrix_scripts("thorough", seed, "%s/extra" % cname)}
+        rot = ["zero_len_writes", "app_closes_first", "app_half_close"][sum(cname.encode()) % 3]
+        for sn in ("target_speaks_first", rot):
+            name = "matrix/%s/socks5_ipv4/%s" % (cname, sn)
+            if not wanted(name, only):
+                continue
+            if dep is not None and not all(dep.alive()):
+                dep.stop()
+                dep = None
+            if dep is None:
+                try:
+                    dep = T.Deployment(spec)
+                except T.DeploymentError as e:
+                    res.extend(_deploy_failed([name], spec, e))
+                    continue
+            (sname, steps, ea, et, desc) = extra[sn]
+            res.append(one_flow_result(name, spec, dep, "socks5_ipv4", sname, steps, ea, et, desc, DEADLINE))
     finally:
         if dep is not None:
             dep.stop()
